@@ -119,8 +119,11 @@ def main():
     cases.append(("G1<'_, '_>", "T(R0d,P,w3)"))
     structs.append("#[derive(shred::SystemData)]\npub struct G2<'a, X: Resource + Default> { a: Read<'a, X>, b: Write<'a, D<1>> }")
     cases.append(("G2<'_, D<4>>", "T(R4d,W1d)"))
+    # (a second instantiation of every generic derived struct: the generated impl must not share anything between them)
+    cases.append(("G2<'_, D<5>>", "T(R5d,W1d)"))
     structs.append("#[derive(shred::SystemData)]\npub struct G3<'a, X> where X: Resource + Default + std::fmt::Debug { a: WriteExpect<'a, X>, b: (Read<'a, D<2>>, ()) }")
     cases.append(("G3<'_, D<5>>", "T(W5p,T(R2d,U))"))
+    cases.append(("G3<'_, D<0>>", "T(W0p,T(R2d,U))"))
     structs.append("#[derive(shred::SystemData)]\npub struct G4<'a, 'b: 'a, X: Resource + Default>(pub Option<Read<'a, X>>, pub PhantomData<&'b X>, pub S1<'a>) where X: Send;")
     s1sd = [c for c in cases if c[0] == "S1<'_>"][0][1]
     cases.append(("G4<'_, '_, D<2>>", "T(r2,P,%s)" % s1sd))
